@@ -6,9 +6,10 @@ pkg/eval/port.go `valueOutput.Put`), over an explicit world of files, open
 file handles (`*os.File`) and value channels.
 
 The model is parameterised by `Cfg`: which of the four repairs
-`fixes/C42-*.patch` the modelled code contains.  `Cfg.fixed` is the code the
-theorems and the correspondence are about; `Cfg.orig` is the unchanged tree
-and is only used for the `C42_counterexample_*` theorems.
+`fixes/C42-*.patch` (and of the later repair of `Frame.ValueOutput` for the
+reading end of a pipe, `pipeReadEnd`) the modelled code contains.  `Cfg.fixed`
+is the code the theorems and the correspondence are about; `Cfg.orig` is the
+unchanged tree and is only used for the `C42_counterexample_*` theorems.
 -/
 import ElvModel.Go.Basic
 import ElvModel.Generated.C42Flags
@@ -28,9 +29,12 @@ structure Cfg where
   inputPortVO : Bool
   /-- number of slice elements whose allocation kills the process (only reachable when `fdRange = false`). -/
   memSlots : Nat
+  /-- `Frame.ValueOutput` refuses the reading end of a pipe (`pipeReadEnd`; the later fix
+  "value output to the reading end of a pipe raises instead of panicking", found by C17). -/
+  readEndVO : Bool
 
-def Cfg.fixed : Cfg := ⟨true, true, true, true, 2 ^ 33⟩
-def Cfg.orig : Cfg := ⟨false, false, false, false, 2 ^ 33⟩
+def Cfg.fixed : Cfg := ⟨true, true, true, true, 2 ^ 33, true⟩
+def Cfg.orig : Cfg := ⟨false, false, false, false, 2 ^ 33, false⟩
 
 /-- `maxRedirFD` of the fix. -/
 def maxRedirFD : Int := 1023
@@ -117,6 +121,9 @@ structure Port where
   stop : Bool
   /-- `sendStop`, `sendError`, `readerGone` populated by the pipeline (an inter-form pipe) -/
   pipeCtl : Bool
+  /-- `pipeReadEnd`: the port from which a form reads the output of the previous form of its
+  pipeline (its channel is closed by the writing side) -/
+  pipeReadEnd : Bool
   deriving Repr, DecidableEq
 
 /-- `formOwnedPort` -/
@@ -280,11 +287,11 @@ def Fop.close (fop : Fop) (p : Option Port) (w : World) : Res World :=
 /-! ### fileRedirPort -/
 
 def fileRedirPort (pid : Nat) (m : Mode) (h : Nat) : Port :=
-  if m = .read then ⟨pid, some h, .closed, false, false⟩
-  else ⟨pid, some h, .nil, true, false⟩
+  if m = .read then ⟨pid, some h, .closed, false, false, false⟩
+  else ⟨pid, some h, .nil, true, false, false⟩
 
 /-- the port installed by `>&-` -/
-def closedPort (pid : Nat) : Port := ⟨pid, none, .nil, true, false⟩
+def closedPort (pid : Nat) : Port := ⟨pid, none, .nil, true, false, false⟩
 
 /-! ### redirOp.exec -/
 
@@ -462,7 +469,9 @@ def valueOutput (cfg : Cfg) (st : St) (v : Bytes) : Res (St × Option String) :=
   match p with
   | none => .panic "nil pointer dereference"
   | some p =>
-    match p.chan with
+    -- `if p.Chan == ClosedChan || p.pipeReadEnd { return valueOutput{nil, closedSendStop, …} }`
+    if cfg.readEndVO && p.pipeReadEnd then .ok (st, some eNoValueOutput)
+    else match p.chan with
     | .closed =>
       if cfg.inputPortVO then .ok (st, some eNoValueOutput)
       else .panic "send on closed channel"
